@@ -7,6 +7,7 @@ import families
 # mechanism configurations: (name, cfg, module)
 MQ = "MC_MsgQueue.tla"
 TP = "../mech/TaskPool.tla"
+SL = "../mech/ServerLife.tla"
 WC = "MC_WriterChain.tla"
 RC = "MC_ReaderChain.tla"
 TEMPORAL = "Temporal properties were violated"
@@ -34,16 +35,18 @@ PROPS = {
         tlc={"quick": [("TaskPool_quick", "TaskPool_quick.cfg", TP)],
              "thorough": [("TaskPool_quick", "TaskPool_quick.cfg", TP), ("TaskPool_thorough", "TaskPool_thorough.cfg", TP)]},
         dev=[("TaskPool_dev_F3", "TaskPool_dev_F3.cfg", TP, "NoStarve")],
-        family="C08", drivers=["d1"], mech=("pool", "T_TaskPool.tla", "T_TaskPool.cfg"),
+        family="C08", drivers=["d1"], mech=("pool", "T_TaskPool.tla", "T_TaskPool.cfg"), mech2=("server", "T_ServerLife.tla", "T_ServerLife.cfg"),
         passes={"quick": [("mix", 10, None), ("demote", 300, 12)], "thorough": [("mix", 80, None), ("delay", 2, 300), ("demote", 600, 30)]},
         nontrivial=r'"ev":"COpen","c":4,',
         rule="scenarios: N simultaneous keep-alive connections, burst / stalled / held / staggered / waves around the idle period (family C08); distinct = distinct observable traces; non-trivial = at least 5 connections open at once (more than the pool minimum)",
     ),
     "C20": dict(
-        tlc={"quick": [("TaskPool_c20_quick", "TaskPool_c20_quick.cfg", TP)],
-             "thorough": [("TaskPool_c20_quick", "TaskPool_c20_quick.cfg", TP), ("TaskPool_c20_thorough", "TaskPool_c20_thorough.cfg", TP)]},
-        dev=[],
-        family="C20", drivers=["d1"], mech=("pool", "T_TaskPool.tla", "T_TaskPool.cfg"),
+        tlc={"quick": [("TaskPool_c20_quick", "TaskPool_c20_quick.cfg", TP), ("ServerLife_quick", "ServerLife_quick.cfg", SL), ("ServerLife_tcp", "ServerLife_tcp.cfg", SL)],
+             "thorough": [("TaskPool_c20_quick", "TaskPool_c20_quick.cfg", TP), ("TaskPool_c20_thorough", "TaskPool_c20_thorough.cfg", TP),
+                          ("ServerLife_quick", "ServerLife_quick.cfg", SL), ("ServerLife_tcp", "ServerLife_tcp.cfg", SL)]},
+        dev=[("ServerLife_dev_flagafterwake", "ServerLife_dev_flagafterwake.cfg", SL, "NeverParkedAfterDrop"), ("ServerLife_dev_nowake", "ServerLife_dev_nowake.cfg", SL, "NeverParkedAfterDrop"),
+             ("ServerLife_dev_check2", "ServerLife_dev_check2.cfg", SL, "BoundedLateAccepts")],
+        family="C20", drivers=["d1"], mech=("pool", "T_TaskPool.tla", "T_TaskPool.cfg"), mech2=("server", "T_ServerLife.tla", "T_ServerLife.cfg"),
         passes={"quick": [("mix", 6, None), ("demote", 400, 16)], "thorough": [("mix", 60, None), ("delay", 1, 100), ("demote", 600, 20)]},
         nontrivial=r'"ev":"(Probe|ServerDrop)"',
         rule="scenarios: bursts followed by idle periods with thread-count probes; server drop with held requests and later connects (family C20); distinct = distinct observable traces",
@@ -73,13 +76,15 @@ D2_PROPS = {"C02", "C03", "C06", "C09", "C10", "C12", "C16", "C18", "C13", "C15"
 RC_FREE = ("ReaderChain_free", "ReaderChain_free.cfg", RC)
 RC_HOLD = ("ReaderChain_hold", "ReaderChain_hold.cfg", RC)
 RC_F4 = ("ReaderChain_dev_F4", "ReaderChain_dev_F4.cfg", RC, "HeadsAtMessageStart")
+SL_Q = ("ServerLife_tcp", "ServerLife_tcp.cfg", SL)
+SL_UNWRAP = ("ServerLife_dev_unwrap", "ServerLife_dev_unwrap.cfg", SL, "ServingWhileAlive")
 CL = "MC_ConnLoop.tla"
 CL_ALL = ("ConnLoop_thorough", "ConnLoop_thorough.cfg", CL)
 CL_KA = ("ConnLoop_dev_keepalive", "ConnLoop_dev_keepalive.cfg", CL, "NeverBeyondStop")
 CL_E10 = ("ConnLoop_dev_expect10", "ConnLoop_dev_expect10.cfg", CL, "NeverBeyondStop")
 MECH = {"C03": ([RC_FREE], []), "C12": ([CL_ALL], [CL_KA]), "C09": ([RC_FREE], [RC_F4]), "C11": ([RC_HOLD, RC_FREE], []), "C18": ([RC_FREE], []),
         "C10": ([("WriterChain_quick", "WriterChain_quick.cfg", WC), CL_ALL], [("WriterChain_dev_F5", "WriterChain_dev_F5.cfg", WC, "EveryoneFinishes"), CL_E10]),
-        "C13": ([RC_FREE], []), "C15": ([RC_FREE], [])}
+        "C13": ([RC_FREE], []), "C15": ([RC_FREE, SL_Q], [SL_UNWRAP])}
 
 def _conn_prop(fam, nontrivial, rule, quick_runs=4, thorough_runs=30):
     return dict(tlc={"quick": MECH.get(fam, ([], []))[0], "thorough": MECH.get(fam, ([], []))[0]}, dev=MECH.get(fam, ([], []))[1], family=fam, drivers=["d1"] + (["d2"] if fam in D2_PROPS else []),
@@ -254,6 +259,30 @@ def run_check(prop, tier, seed):
             fidelity["chains_observed"] = sum(seen_chains.values())
             fidelity["distinct_chain_histories"] = len(seen_chains)
         log("[mech] %d/%d executions are behaviours of %s (%d marker events, %d divergences)" % (acc, len(mex), mspec, fidelity["marker_events"], len(div)))
+    # 3a'. a second mechanism specification bound to the same executions (the life of the listening socket)
+    fidelity2 = None
+    if cfg.get("mech2"):
+        import mechtrace
+        kind2, mspec2, mcfg2 = cfg["mech2"]
+        mex2 = []
+        unmapped2 = 0
+        seen2 = {}
+        for x in reps:
+            evs = mechtrace.server_events(ex[x])
+            if evs is None:
+                unmapped2 += 1
+                continue
+            key = json.dumps(evs, sort_keys=True)
+            if key in seen2:
+                seen2[key] += 1
+            else:
+                seen2[key] = 1
+                mex2.append((x, evs))
+        acc2, div2 = mechtrace.validate_mech(mspec2, mcfg2, mex2, os.path.join(wdir, "mech2"), kind2)
+        fidelity2 = {"mechanism_spec": mspec2, "executions": sum(seen2.values()), "distinct_histories": len(mex2), "accepted_histories": acc2,
+                     "divergences": div2[:10], "n_divergences": len(div2), "unmappable": unmapped2, "marker_events": sum(len(e) for _, e in mex2)}
+        log("[mech] %d/%d distinct listening-socket histories (of %d executions) are behaviours of %s (%d marker events, %d divergences)" % (
+            acc2, len(mex2), sum(seen2.values()), mspec2, fidelity2["marker_events"], len(div2)))
     # 3b. second, hook-free path: the same scenarios over real TCP / UNIX sockets (ordinary build)
     d2info = None
     order2, reps2, ex2 = [], [], {}
@@ -359,6 +388,7 @@ def run_check(prop, tier, seed):
         "seen_for_other_properties": others,
         "real_socket_path": d2info,
         "mechanism_fidelity": fidelity,
+        "mechanism_fidelity_listening_socket": fidelity2,
     }
     if not cfg["tlc"][tier]:
         coverage["explanation"] = "no mechanism configuration for this tier: states/transitions count judge states of the validated traces"
